@@ -35,7 +35,7 @@ for bname in ['1', '2', '3', '4 (asked to be as hard to find as possible)', '5 (
     rs = [r for r in rows if batch(r[0]) == bname]
     print('| %s | %d | %d | %d |' % (bname, len(rs), sum(r[2] for r in rs), sum(r[1] in r[4] for r in rs)))
 print()
-print('Not caught by the target check now: ' + ', '.join('`%s`' % r[0] for r in rows if r[1] not in r[4]))
+print('Not caught by the target check now: ' + (', '.join('`%s`' % r[0] for r in rows if r[1] not in r[4]) or 'none'))
 print()
 print('Missed by the target check at first evaluation:')
 print()
